@@ -8,15 +8,26 @@
 (* calls); Emit prints it with the objects (name, comments) the generated code must declare.                           *)
 EXTENDS Transforms, TLC, Json
 
-LibFoldTable == [Container |-> "container", Item |-> "item", Kind |-> "kind"]
+LibFoldTable == [Container |-> "container", Item |-> "item", Kind |-> "kind", LibContainerOpts |-> "libcontaineropts",
+                 StringOrBool |-> "stringorbool"]
 LibTrimTable == [x \in {" a "} |-> "a"]
 LibHintRank  == [h1 |-> 1]
 
-\* what cog's CUE front-end makes of checks/library_part.py's LIB_CUE (names and comments are what the check looks at)
+(* What the transformations see. cog documents them as FINAL passes ("applied *after* language-specific passes",          *)
+(* codegen.Transforms.FinalPasses; run.go: language.CompilerPasses().Concat(pipeline.finalPasses())), so LibIR is what     *)
+(* cog's CUE front-end makes of checks/library_part.py's LIB_CUE followed by the Go chain: the inline struct of            *)
+(* Container.opts has become the object LibContainerOpts and the disjunction string | bool the object StringOrBool. Every      *)
+(* type the generated code declares is therefore subject to the prefix and to the comment (names and comments are what     *)
+(* the check looks at).                                                                                                    *)
 LibIR == << SchemaOf("lib", <<
-    ObjC("lib", "Container", TStruct(<<Field("item", TRef("lib", "Item"), TRUE), Field("name", TString, TRUE)>>), <<"container comment">>),
+    ObjC("lib", "Container", TStruct(<<Field("item", TRef("lib", "Item"), TRUE), Field("name", TString, TRUE),
+                                       Field("opts", TRef("lib", "LibContainerOpts"), TRUE),
+                                       Field("either", TRef("lib", "StringOrBool"), TRUE)>>), <<"container comment">>),
     Obj("lib", "Item", TStruct(<<Field("value", TString, TRUE)>>)),
-    Obj("lib", "Kind", TEnum(<<Member("A", VStr("a"), "string"), Member("B", VStr("b"), "string")>>)) >>) >>
+    Obj("lib", "Kind", TEnum(<<Member("A", VStr("a"), "string"), Member("B", VStr("b"), "string")>>)),
+    Obj("lib", "LibContainerOpts", TStruct(<<Field("flag", TScalar("bool"), TRUE)>>)),
+    Obj("lib", "StringOrBool", TStruct(<<Field("String", AsNullable(TString), FALSE),
+                                          Field("Bool", AsNullable(TScalar("bool")), FALSE)>>)) >>) >>
 
 LibActs == [a : {"prefix_objects_names"}, prefix : {"Outer", "Inner"}]
       \cup [a : {"append_comment_objects"}, comment : {"c1", "c2"}]
